@@ -29,6 +29,7 @@ type RunReport struct {
 	Inputs      int              `json:"inputs,omitempty"`
 	SubEvals    int              `json:"sub_evals,omitempty"`
 	SubFP       []string         `json:"sub_fp,omitempty"`
+	Digest      string           `json:"digest,omitempty"`
 	Steps       int              `json:"steps"`
 	WallMs      int64            `json:"wall_ms"`
 }
@@ -54,7 +55,7 @@ func SilenceStdout() *os.File {
 
 func report(out *props.RunOut, seed uint64, wantTrace bool, t0 time.Time) *RunReport {
 	rep := &RunReport{Seed: seed, Violations: out.Violations, Stats: out.Stats, NonTrivial: out.NonTrivial,
-		HarnessErr: out.HarnessErr, Foreign: out.Foreign, Inputs: out.Inputs, SubEvals: out.SubEvals, SubFP: out.SubFP, WallMs: time.Since(t0).Milliseconds()}
+		HarnessErr: out.HarnessErr, Foreign: out.Foreign, Inputs: out.Inputs, SubEvals: out.SubEvals, SubFP: out.SubFP, Digest: out.Digest, WallMs: time.Since(t0).Milliseconds()}
 	if out.Stats != nil {
 		rep.Fingerprint = out.Stats.Fingerprint()
 	}
